@@ -525,3 +525,161 @@ def run_bufinstall(prog, ctx=None):
     if n < 5:
         raise Broken("BUFINSTALL: only %d installs of produced buffers" % n)
     return res
+
+
+def buf_replacers(prog):
+    """{function key: set of parameter positions} whose array's `_buf` the function may replace: it stores to P->_buf itself
+    or hands P to a function that does (fixpoint over the resolved call graph)"""
+    from .rules_path import funcs_of
+    fs = funcs_of(prog, None)
+    rep = {}
+    arrpar = {}
+    for f in fs:
+        ps = {}
+        for j, p in enumerate(f.params):
+            T = f.T(p["t"])
+            if T.get("k") == "ptr":
+                PT = f.T(T.get("to"))
+                if PT.get("k") == "record" and PT.get("name", "").split("::")[-1] in ("mpt_array", "array") and "const" not in (PT.get("s", "").split("struct")[0]):
+                    ps[p["id"]] = j
+        if ps:
+            arrpar[f.key()] = ps
+    for f in fs:
+        ps = arrpar.get(f.key())
+        if not ps:
+            continue
+        for b, i, n in f.walk_all():
+            if n.get("k") == "bin" and n.get("op") == "=":
+                l = strip(n["a"], lvalue_to_rvalue=False)
+                if l.get("k") == "mem" and l.get("f") == "_buf":
+                    bb = strip(l["b"], all_casts=True)
+                    if bb.get("k") == "ref" and bb["d"].get("id") in ps:
+                        rep.setdefault(f.key(), set()).add(ps[bb["d"]["id"]])
+    changed = True
+    while changed:
+        changed = False
+        for f in fs:
+            ps = arrpar.get(f.key())
+            if not ps:
+                continue
+            for b, i, e in f.elements():
+                if e.get("k") != "call":
+                    continue
+                for g in prog.resolve_call(f, e):
+                    gp = rep.get(g.key())
+                    if not gp:
+                        continue
+                    for j in gp:
+                        if j < len(e.get("args", [])):
+                            a = strip(e["args"][j], all_casts=True)
+                            if a.get("k") == "ref" and a["d"].get("id") in ps and ps[a["d"]["id"]] not in rep.get(f.key(), set()):
+                                rep.setdefault(f.key(), set()).add(ps[a["d"]["id"]])
+                                changed = True
+    return rep
+
+
+def run_stalebuf(prog, ctx=None):
+    """STALEBUF: an address computed from `A->_buf` does not outlive a call that may give A another buffer.  Functions that
+    store to their array parameter's `_buf` (directly or through callees: slice, append, insert, set, reserve ..) may
+    replace and release the buffer of a shared, immutable or full array; a local that was derived from the old `_buf` and is
+    read, dereferenced or returned after such a call without being assigned again points into the other handles' storage or
+    into freed memory."""
+    res = Result("STALEBUF")
+    from .rules_path import funcs_of
+    files = set(ctx.get("files", [])) if ctx else None
+    rep = buf_replacers(prog)
+    if len(rep) < 5:
+        raise Broken("STALEBUF: only %d functions found that replace an array's buffer" % len(rep))
+    for f in funcs_of(prog, files):
+        # derived locals: var id -> text of the array expression
+        derived = {}
+        changed = True
+        while changed:
+            changed = False
+            for b, i, n in f.walk_all():
+                pairs = []
+                if n.get("k") == "decl":
+                    pairs = [(v["id"], v["n"], v["init"], v.get("t")) for v in n["vars"] if v.get("init") is not None]
+                elif n.get("k") == "bin" and n.get("op") == "=":
+                    l = strip(n["a"], lvalue_to_rvalue=False)
+                    if l.get("k") == "ref" and "id" in l["d"]:
+                        pairs = [(l["d"]["id"], l["d"]["n"], n["b"], l.get("t"))]
+                for vid, vn, rhs, vt in pairs:
+                    if vid in derived or f.T(vt).get("k") != "ptr":
+                        continue
+                    src = None
+                    for m in walk_own(rhs) if isinstance(rhs, dict) else []:
+                        if m.get("k") == "call":
+                            src = None
+                            break
+                        if m.get("k") == "mem" and m.get("f") == "_buf":
+                            src = norm(show(strip(m["b"], all_casts=True), f))
+                        elif m.get("k") == "ref" and m["d"].get("id") in derived:
+                            src = derived[m["d"]["id"]][0]
+                    if src is not None:
+                        derived[vid] = (src, vn)
+                        changed = True
+        if not derived:
+            continue
+        # replacing calls in this function: element -> array text
+        calls = {}
+        for b, i, e in f.elements():
+            if e.get("k") != "call":
+                continue
+            for g in prog.resolve_call(f, e):
+                for j in rep.get(g.key(), ()):
+                    if j < len(e.get("args", [])):
+                        calls[(b.id, i)] = (norm(show(strip(e["args"][j], all_casts=True), f)), g.name)
+        if not calls:
+            continue
+        # forward may-analysis: set of stale variable ids at block entry
+        IN = {bid: None for bid in f.blocks}
+        ent = [bid for bid, b in f.blocks.items() if not b.preds]
+        work = list(ent)
+        for x in ent:
+            IN[x] = frozenset()
+        reports = {}
+        rounds = 0
+        while work and rounds < 5000:
+            rounds += 1
+            x = work.pop()
+            stale = set(IN[x] or ())
+            blk = f.blocks[x]
+            for i, e in enumerate(blk.el):
+                assigned = set()
+                for n in walk_own(e):
+                    if n.get("k") == "bin" and n.get("op") == "=":
+                        l = strip(n["a"], lvalue_to_rvalue=False)
+                        if l.get("k") == "ref" and "id" in l["d"]:
+                            assigned.add(id(l))
+                    if n.get("k") == "decl":
+                        for v in n["vars"]:
+                            stale.discard(v["id"])
+                for n in walk_own(e):
+                    if n.get("k") == "ref" and n["d"].get("id") in stale and id(n) not in assigned:
+                        reports.setdefault(n["d"]["id"], (e, blk.id))
+                for n in walk_own(e):
+                    if n.get("k") == "bin" and n.get("op") == "=":
+                        l = strip(n["a"], lvalue_to_rvalue=False)
+                        if l.get("k") == "ref" and "id" in l["d"]:
+                            stale.discard(l["d"]["id"])
+                if (x, i) in calls:
+                    akey, gname = calls[(x, i)]
+                    for vid, (src, vn) in derived.items():
+                        if src == akey or src == "&" + akey or "&" + src == akey:
+                            stale.add(vid)
+            out = frozenset(stale)
+            for s in blk.succ:
+                if s is None:
+                    continue
+                new = out if IN[s] is None else (IN[s] | out)
+                if new != IN[s]:
+                    IN[s] = new
+                    work.append(s)
+        for (bid, i), (akey, gname) in sorted(calls.items()):
+            vs = [(vid, derived[vid][1]) for vid in derived if derived[vid][0] in (akey, "&" + akey) or "&" + derived[vid][0] == akey]
+            bad = [(vn, reports[vid]) for vid, vn in vs if vid in reports]
+            res.ob("%s:%s(%s) at block %d" % (f.qn, gname, akey, bid), not bad, f, (bad[0][1][0].get("l") if bad else f.blocks[bid].el[i].get("l")) or f.line,
+                   "" if not bad else "`%s` was computed from %s->_buf before %s() may have replaced that buffer and is used in `%s` without being assigned again: it points into the old buffer (shared with other handles, or freed)" % (
+                       bad[0][0], akey.lstrip("&"), gname, norm(show(bad[0][1][0], f))[:80]))
+    return res
